@@ -150,6 +150,10 @@ func (s *Schema) compile() error {
 func (s *Schema) doCompile() error {
 	content := s.file.Content()
 
+	if len(content) == 0 {
+		return errors.NewDocumentError(s.file, errors.ErrUnexpectedEOF)
+	}
+
 	if content[0] != '/' {
 		return s.newDocumentError(errors.ErrRegexUnexpectedStart, 0, content[0])
 	}
